@@ -2008,7 +2008,9 @@ class SparseVector:
         size = self.size
         other_size = other.size
         other_dct = other.dct
-        if size == other_size:
+        if other_dct is dct:
+            dct.clear()
+        elif size == other_size:
             for i, j in other_dct.items():
                 if i in dct:
                     j = dct[i] - j
